@@ -168,7 +168,7 @@ class Parameter(AnnotatedValue):
                     f"Type-checking failed: parameter {self.name}={value} does not have type {self.kind}."
                 )
         elif self.kind == ParamType.INT:
-            if (isinstance(value, float) and int(value) == value) or isinstance(
+            if (isinstance(value, float) and value.is_integer()) or isinstance(
                 value, int
             ):
                 pass
@@ -181,7 +181,7 @@ class Parameter(AnnotatedValue):
                 isinstance(value, AnnotatedValue)
                 and value.kind == ParamType.FLOAT
                 and hasattr(value, "value")
-                and int(value.value) == value.value
+                and float(value.value).is_integer()
             ):
                 # A constant whose floating point value is integral
                 pass
